@@ -48,6 +48,19 @@ CHECKS.update({
     ),
 })
 
+CHECKS.update({
+    "C06": dict(
+        technique="exhaustive small-scope enumeration (all width sequences of an 8-bit unit x all 256 contents x endian x storage x reader; 16-bit units sampled) + Hypothesis bit-field-heavy definitions against an independent bit-slicing reference; negative class of straddling sequences",
+        text="exhaustive for 8-bit storage units (every width sequence, every unit value, both byte orders, signed/unsigned/enum storage, both readers; parse, dump and construct directions) and generated search beyond (8..64-bit storage, enum/flag storage, unit switches, dynamic/aligned neighbours); straddling definitions must be rejected at load in both modes",
+        design_ref="DESIGN.md §4 C06",
+    ),
+    "C07": dict(
+        technique="property-based testing: Hypothesis array-heavy definitions and stand-alone array types against the independent reference decoder/encoder; metamorphic ragged-tail cases for x[EOF]; negative class of wrong-length dumps",
+        text="generated search over element kinds x the four length forms (field arrays in both readers, stand-alone cs.T[n]/cs.T[None], multi-dimensional, null-terminated arrays of all-integer structures, expression lengths incl. negative results), element count/contents/consumed bytes/terminator checked against the reference; x[EOF] over ragged tails may raise but never returns a partial element; fixed arrays dumped with len != n must raise",
+        design_ref="DESIGN.md §4 C07",
+    ),
+})
+
 NOT_YET = {}
 
 
